@@ -61,6 +61,65 @@ def replay_one(ctx, inst):
                 "samp": inst["samp"], "edges": inst["edges"], "emuts": inst["emuts"], "espan": inst["espan"]}, limit=4)
 
 
+def loop_traces(ctx, insts, name, **dims):
+    """code -> spec at loop granularity: record the kernel's locals at every loop head (JIT off, separate
+    process) and let TLC (spec/SweepTrace.tla) step module Sweep's machine alongside."""
+    import json
+    import os
+    import subprocess
+    if not insts:
+        return
+    ip = os.path.join(ctx.work, f"{name}-insts.json")
+    op = os.path.join(ctx.work, f"{name}.ndjson")
+    json.dump(insts, open(ip, "w"))
+    env = dict(os.environ, NUMBA_DISABLE_JIT="1", PYTHONPATH=harness.VERIF, VERIF_REPO=harness.REPO)
+    env.pop("NUMBA_CACHE_DIR", None)
+    r = subprocess.run(["/venv/bin/python", "-m", "vt.looptrace", ip, op], env=env, capture_output=True, text=True,
+                       cwd=harness.VERIF, timeout=1800)
+    if r.returncode != 0:
+        if "AssertionError" in r.stderr or "Error" in r.stderr.splitlines()[-1:][0:1].__str__():
+            ctx.violation("C24/looptrace/kernel-raised", {"stderr": r.stderr[-800:]},
+                          "_count_mutations raised under the loop-head recorder: " + r.stderr[-300:], subcheck="loop")
+            return
+        raise harness.MachineryError("loop-head recorder failed: " + r.stderr[-1500:])
+    cfg = ctx.write_cfg(f"{name}.cfg", spec="TraceSpec", constants=sc.consts(**dims))
+
+    def validate(path):
+        res = ctx.tlc("SweepTrace", cfg, workers=1, coverage=False, env={"TRACE_FILE": path}, must_hold=False)
+        acc = res.rec("accepted")
+        if not acc:
+            raise harness.MachineryError("SweepTrace gave no verdict:\n" + res.stdout[-2000:])
+        return acc[-1]["accepted"], res.rec("reject")
+
+    nacc, rej = validate(op)
+    if nacc + len({x["tid"] for x in rej}) != len(insts):
+        raise harness.MachineryError(f"SweepTrace accounted for {nacc}+{len(rej)} of {len(insts)} traces")
+    ctx.traces += len(insts)
+    ctx.count("loop_head_traces", len(insts))
+    for x in rej:
+        inst = insts[x["tid"]]
+        ctx.violation(f"C24/looptrace/{x['clause']}", inst,
+                      f"loop-head trace of _count_mutations rejected by SweepTrace at line {x['line']}: {x['clause']}",
+                      subcheck="count")
+    # binding demonstration: corrupt one logged cursor, the trace must be rejected
+    lines = open(op).read().splitlines()
+    for i, ln in enumerate(lines):
+        ev = json.loads(ln)
+        if ev["kind"] == "head" and ev["left"] > 0:
+            ev["b"] += 1
+            lines[i] = json.dumps(ev)
+            bad_tid = ev["tid"]
+            break
+    else:
+        return
+    cp = os.path.join(ctx.work, f"{name}-corrupt.ndjson")
+    open(cp, "w").write("\n".join(lines) + "\n")
+    nacc2, rej2 = validate(cp)
+    if {x["tid"] for x in rej2} != {bad_tid} | {x["tid"] for x in rej}:
+        raise harness.MachineryError("SweepTrace did not reject exactly the corrupted trace")
+    ctx.count("corrupted_traces_rejected", 1)
+
+
 def blocks_consts(NS, NI, L, max_muts, num_ind, tree_filter, emit=False):
     import json
     return {"NS": NS, "NI": NI, "L": L, "MaxMuts": max_muts, "TreeFilter": json.dumps(tree_filter),
@@ -142,6 +201,10 @@ def run(ctx):
     for inst in insts:
         replay_one(ctx, inst)
         ctx.traces += 1
+    small = [i for i in insts if i["N"] == 4 and i["L"] == 2 and sorted(i["samp"]) == [0, 1]]
+    loop_traces(ctx, ctx.rng.sample(small, min(len(small), 150 if q else 3000)), "lt_a", NS=2, NI=2, L=2, max_muts=1)
+    big = [i for i in insts if i["N"] == 6 and i["L"] == 3]
+    loop_traces(ctx, big[: 60 if q else 1500], "lt_b", NS=3, NI=3, L=3, max_muts=3, custom=True)
     # singleton blocks (phasing._block_singletons)
     musts = ["BlocksExact", "NoPhantomBlock", "MutBlockExact"]
     cfg = ctx.write_cfg("blocks_j1.cfg", constants=blocks_consts(2, 2, 2 if q else 3, 1 if q else 2, 1, "any"),
